@@ -8,18 +8,23 @@ What is modelled (spec/Patch/Patch.tla)
     ignores it, CreateOrUpdate replaces it; the three deletes remove the object and ignore a missing one; MergePatch /
     JSONPatch / JQPatch change an existing object, a missing one is an error unless ignoreMissingObject; a failing
     operation does not stop the later ones; the execution fails iff some operation failed), payloads inline or
-    stringified (JSON text / YAML text), `subresource` on the three patches, and eight single-fault classes of invalid
+    stringified (JSON text / YAML text), `subresource` on the three patches, eight single-fault classes of invalid
     documents (no operation, unknown operation, unknown key, payload missing / empty / of the wrong shape, name or kind
-    missing).
+    missing), and one stream-level fault: a stray closing bracket (`]` or `}`) before, between or after complete
+    documents (stream element op "Stray", fault strayClose) - a syntax error of the stream in both syntaxes, so nothing
+    may be applied, neither the documents before it nor those after it.
   * PIPELINE, structured like the code: Decode (per syntax: unknown keys, Go number types) -> SchemaOk -> Parse (stop at
     the first error) -> NewOp -> ExecOp in terms of API calls -> ExecAll (slice order, errors aggregated) -> RunHook
     (parse error => nothing executed).
   * TLC checks AllOrNothingValidation, InOrderOnce, SyntaxAgnostic and NoCrash on every stream x initial cluster of the
     bounded domain (one state per case) and prints the cases with the final cluster / success / number of failing
-    operations / per-step trace demanded by the REFERENCE. MC_asis_*.cfg show TLC finding the two defects in the
-    as-it-was model.
+    operations / per-step trace demanded by the REFERENCE. MC_asis_unknown.cfg / MC_asis_yamlint.cfg show TLC finding the
+    two defects in the as-it-was model; MC_asis_more.cfg shows TLC finding the seeded change C13-m6 (JSON decode loop
+    `for dec.More()`: a stray closing bracket ends the stream silently) as a violation of AllOrNothingValidation.
 
-Binding (R): harness/cmd/patch renders every case as a JSON stream and as a YAML stream and runs both through the real
+Binding (R): harness/cmd/patch renders every case as a JSON stream and as a YAML stream (a stray bracket: JSON - glued to
+the end of the previous document `{...}}` or on a line of its own; YAML - a document of its own `---\n]` or a line after
+the previous document) and runs both through the real
 ParseOperations + ObjectPatcher.ExecuteOperations on a fresh kube-client/fake cluster pre-loaded with the initial state
 ("direct"), and a sample through the real ShellOperator.handleRunHook with a real hook process writing the file ("hook":
 the decision not to execute after a parse error is then the repository's own).
@@ -74,7 +79,8 @@ def _cases(ctx, cfg, consts, timeout, label):
 
 def _asis(ctx, cfg, inv):
     a = vlib.tlc(ctx, SPEC, "Patch", cfg, workers=2, timeout=300, expect_violation=inv, want_prints=False, heap="2g")
-    ctx.log("TLC %s: the as-it-was model violates %s as expected (%d states)" % (cfg, inv, a["generated"]))
+    ctx.log("TLC %s: the %s model violates %s as expected (%d states)"
+            % (cfg, "seeded-change" if cfg == "MC_asis_more.cfg" else "as-it-was", inv, a["generated"]))
 
 
 def _nontrivial(c):
@@ -166,6 +172,7 @@ def check_c13(ctx):
         n = _cases(ctx, "MC_num.cfg", None, 600, "integer-bearing family")
         _asis(ctx, "MC_asis_unknown.cfg", "AllOrNothingValidation")
         _asis(ctx, "MC_asis_yamlint.cfg", "NoCrash")
+        _asis(ctx, "MC_asis_more.cfg", "AllOrNothingValidation")
         return n
     side_f = side.submit(_side)
     main = _cases(ctx, main_cfg, {"SampleMod": ctx.pick("8", "2"), "Seed": str(ctx.seed)}, ctx.pick(400, 1800),
@@ -230,7 +237,8 @@ MANIFEST = {
     "C13": dict(
         text="TLC exhaustively checks spec/Patch - reference semantics of the kubernetes patch file from the documentation next to a model of the "
              "decode/validate/construct/execute pipeline - for AllOrNothingValidation, InOrderOnce, SyntaxAgnostic and NoCrash over streams of <= 3 "
-             "documents (9 operations, payload forms, subresource, ignoreMissingObject, 8 fault classes) x initial clusters over 2 objects; the cases "
+             "documents (9 operations, payload forms, subresource, ignoreMissingObject, 8 document fault classes, stray closing brackets between "
+             "the documents) x initial clusters over 2 objects; the cases "
              "printed by TLC are rendered as JSON and as YAML streams and run through the real ParseOperations + ObjectPatcher.ExecuteOperations on a "
              "fake cluster (final cluster, success, error count, subresource and propagation policy on the wire, parsed operations JSON vs YAML), a "
              "sample through the real handleRunHook with a hook process writing $KUBERNETES_PATCH_PATH.",
